@@ -438,15 +438,31 @@ def run_sharded(exe, groups, workdir, tag, nshard):
     weights = [0] * nshard
     for g in sorted(groups, key=lambda g: -len(g[1]) * (1 + len(g[1][0]) // 16)):
         k = weights.index(min(weights)); shards[k].append(g); weights[k] += len(g[1]) * (1 + len(g[1][0]) // 16) + 30
+    def run_file(glist, name, timeout):
+        p = os.path.join(workdir, name)
+        write_cases(glist, p)
+        try:
+            pr = subprocess.run([exe, p], capture_output=True, text=True, timeout=timeout)
+            return pr.returncode, pr.stdout, pr.stderr
+        except subprocess.TimeoutExpired:
+            return 124, "", "timeout"
     def one(k):
         if not shards[k]:
             return ""
-        p = os.path.join(workdir, f"{tag}_{k}.txt")
-        write_cases(shards[k], p)
-        pr = subprocess.run([exe, p], capture_output=True, text=True, timeout=3000)
-        if pr.returncode != 0:
-            raise RuntimeError(f"{exe} failed rc={pr.returncode}: {pr.stderr[-2000:]}")
-        return pr.stdout
+        rc, out, err = run_file(shards[k], f"{tag}_{k}.txt", 3000)
+        if rc == 0:
+            return out
+        # the process died (crash / hang inside a generator): isolate the group(s) responsible
+        outs = []
+        for gi, g in enumerate(shards[k]):
+            rc1, out1, err1 = run_file([g], f"{tag}_{k}_g{gi}.txt", 120)
+            if rc1 == 0:
+                outs.append(out1)
+            elif rc1 == 3:
+                raise RuntimeError(f"{exe} rejected its input: {err1[-500:]}")
+            else:
+                outs.append("".join(f"{g[0]} : {o} -> EXCEPTION process died rc={rc1} while building/simulating this design\n" for o in g[1]))
+        return "".join(outs)
     res = {}
     with concurrent.futures.ThreadPoolExecutor(max_workers=nshard) as ex:
         for out in ex.map(one, range(nshard)):
